@@ -10,7 +10,6 @@ import (
 	"fmt"
 	"go/ast"
 	"go/token"
-	"sort"
 	"strconv"
 	"strings"
 	"unicode"
@@ -398,8 +397,17 @@ func genActions(pf *pkgFiles, g *gramGen) (string, error) {
 		}
 	}
 	var b strings.Builder
-	b.WriteString("-- GENERATED by /verif/harness/extract from the action bodies of /repo/roll.peg.go and the methods of parser.go. Do not edit.\nimport DS.Model.PegTypes\nnamespace DS.Gen.Actions\nopen DS.Peg\n\ndef actions : Array ActInfo := #[\n")
-	for i, name := range g.acts {
+	ops, err := opcodeMap(pf)
+	if err != nil {
+		return "", err
+	}
+	methods, err := methodTable(pf)
+	if err != nil {
+		return "", err
+	}
+	b.WriteString("-- GENERATED by /verif/harness/extract from the action bodies of /repo/roll.peg.go and the methods of parser.go. Do not edit.\nimport DS.Model.PegTypes\nnamespace DS.Gen.Actions\nopen DS.Peg\n\n")
+	var infos []actInfo
+	for _, name := range g.acts {
 		fd := decls[name]
 		if fd == nil || fd.Body == nil {
 			return "", fmt.Errorf("action function %s not found", name)
@@ -415,19 +423,43 @@ func genActions(pf *pkgFiles, g *gramGen) (string, error) {
 			return true
 		})
 		scanBody(pf, inner, &ai)
+		infos = append(infos, ai)
+	}
+	b.WriteString("/-- what every action / code predicate does, digested: effects in execution order and the predicate's meaning -/\ndef acts : Array Act := #[\n")
+	for i, ai := range infos {
+		if i > 0 {
+			b.WriteString(",\n")
+		}
+		effs, pred := digest(ai, ops, methods)
+		fmt.Fprintf(&b, "  { effs := [%s], pred := %s }", strings.Join(effs, ", "), pred)
+	}
+	b.WriteString("\n]\n\ndef actNames : Array String := #[")
+	for i, ai := range infos {
+		if i > 0 {
+			b.WriteString(", ")
+		}
+		b.WriteString(leanStr(ai.name))
+	}
+	b.WriteString("]\n\n/-- the source-level summary the digest was computed from (for reading; not used by the model) -/\ndef summaries : Array ActInfo := #[\n")
+	for i, ai := range infos {
 		if i > 0 {
 			b.WriteString(",\n")
 		}
 		fmt.Fprintf(&b, "  { name := %s, calls := %s, assigns := %s, addErr := %v, checksLoop := %v, ret := %s }",
-			leanStr(name), leanStrList(ai.calls), leanStrList(ai.assigns), ai.addErr, ai.checksLoop, leanStr(ai.ret))
+			leanStr(ai.name), leanStrList(ai.calls), leanStrList(ai.assigns), ai.addErr, ai.checksLoop, leanStr(ai.ret))
 	}
-	b.WriteString("\n]\n\n")
-	// ParserData methods: opcodes written, in source order; `cond` = some write sits under an if/for/switch
-	type mi struct {
-		name string
-		ops  []string
-		cond bool
-	}
+	b.WriteString("\n]\n\nend DS.Gen.Actions\n")
+	return b.String(), nil
+}
+
+type methodInfo struct {
+	name string
+	ops  []string
+	cond bool
+}
+
+func methodTable(pf *pkgFiles) (map[string]*methodInfo, error) {
+	type mi = methodInfo
 	var ms []mi
 	for _, fn := range []string{"parser.go", "custom_dice_parser.go", "custom_dice_stream.go"} {
 		pfile := pf.files[fn]
@@ -491,16 +523,183 @@ func genActions(pf *pkgFiles, g *gramGen) (string, error) {
 			ms = append(ms, m)
 		}
 	}
-	sort.Slice(ms, func(i, j int) bool { return ms[i].name < ms[j].name })
-	b.WriteString("def methods : List MethodInfo := [\n")
-	for i, m := range ms {
-		if i > 0 {
-			b.WriteString(",\n")
-		}
-		fmt.Fprintf(&b, "  { name := %s, ops := %s, cond := %v }", leanStr(m.name), leanStrList(m.ops), m.cond)
+	out := map[string]*methodInfo{}
+	for i := range ms {
+		out[ms[i].name] = &ms[i]
 	}
-	b.WriteString("\n]\n\nend DS.Gen.Actions\n")
-	return b.String(), nil
+	return out, nil
+}
+
+func opcodeMap(pf *pkgFiles) (map[string]int, error) {
+	names, err := opcodeNames(pf)
+	if err != nil {
+		return nil, err
+	}
+	m := map[string]int{}
+	for i, n := range names {
+		m[n] = i
+	}
+	return m, nil
+}
+
+func flagID(name string) string {
+	switch name {
+	case "EnableDiceWoD":
+		return ".wod"
+	case "EnableDiceCoC":
+		return ".coc"
+	case "EnableDiceFate":
+		return ".fate"
+	case "EnableDiceDoubleCross":
+		return ".dc"
+	case "DisableStmts":
+		return ".stmts"
+	case "DisableNDice":
+		return ".ndice"
+	case "DisableBitwiseOp":
+		return ".bitwise"
+	}
+	return ""
+}
+
+// methodOps: the opcodes an unconditional ParserData method writes (nil, false = needs special handling)
+func methodOps(methods map[string]*methodInfo, ops map[string]int, name string, depth int) ([]int, bool) {
+	m := methods[name]
+	if m == nil || m.cond || depth > 8 {
+		return nil, false
+	}
+	var out []int
+	for _, o := range m.ops {
+		if strings.HasPrefix(o, "@") {
+			l, ok := methodOps(methods, ops, o[1:], depth+1)
+			if !ok {
+				return nil, false
+			}
+			out = append(out, l...)
+		} else if n, ok := ops[o]; ok {
+			out = append(out, n)
+		} else {
+			return nil, false
+		}
+	}
+	return out, true
+}
+
+// digest turns the summary of an action body into the model's effect list and predicate kind.  Anything it does not
+// understand becomes `.unknown …`, which the engine model reports as a broken tie.
+func digest(ai actInfo, ops map[string]int, methods map[string]*methodInfo) ([]string, string) {
+	var effs []string
+	unknown := func(w string) { effs = append(effs, ".unknown "+leanStr(w)) }
+	emit := func(n string) {
+		if k, ok := ops[n]; ok {
+			effs = append(effs, fmt.Sprintf(".emit %d", k))
+		} else {
+			unknown("opcode " + n)
+		}
+	}
+	for _, c := range ai.calls {
+		i := strings.Index(c, "(")
+		m := c[:i]
+		inner := c[i+1 : len(c)-1]
+		var args []string
+		if inner != "" {
+			args = strings.Split(inner, "\x1f")
+		}
+		arg := func(k int) string {
+			if k < len(args) {
+				return args[k]
+			}
+			return ""
+		}
+		switch m {
+		case "AddOp", "WriteCode":
+			if strings.HasPrefix(arg(0), "i:") {
+				emit(arg(0)[2:])
+			} else {
+				unknown(c)
+			}
+		case "BreakPush", "ContinuePush":
+			if ai.checksLoop {
+				effs = append(effs, ".breakCont")
+			} else {
+				unknown(c)
+			}
+		case "LoopBegin":
+			effs = append(effs, ".loopBegin")
+		case "LoopEnd":
+			effs = append(effs, ".loopEnd")
+		case "FlagsPush":
+			effs = append(effs, ".flagsPush")
+		case "FlagsPop":
+			effs = append(effs, ".flagsPop")
+		case "AddAttrSet":
+			switch arg(2) {
+			case "i:true":
+				emit("typeLoadNameRaw")
+				emit("typeAttrSet")
+			case "i:false":
+				emit("typeLoadName")
+				emit("typeAttrSet")
+			default:
+				unknown(c)
+			}
+		case "AddStoreFunction":
+			emit("typePushFunction")
+			emit("typeStoreName")
+		case "PrepareCustomDice", "ConsumeCustomDice", "CommitCustomDice":
+			// only reached when a registered custom parser matched (C17's subject; none is registered in the model)
+		default:
+			if l, ok := methodOps(methods, ops, m, 0); ok {
+				for _, k := range l {
+					effs = append(effs, fmt.Sprintf(".emit %d", k))
+				}
+			} else {
+				unknown(c)
+			}
+		}
+	}
+	if strings.HasPrefix(ai.name, "call_onflagsSwitch") {
+		effs = append(effs, ".flagsSwitch")
+	} else {
+		for _, a := range ai.assigns {
+			kvp := strings.SplitN(a, "=", 2)
+			id := flagID(kvp[0])
+			if id != "" && len(kvp) == 2 && (kvp[1] == "true" || kvp[1] == "false") {
+				effs = append(effs, fmt.Sprintf(".setFlag %s %s", id, kvp[1]))
+			} else {
+				unknown("assign " + a)
+			}
+		}
+	}
+	if ai.addErr && !ai.checksLoop {
+		effs = append(effs, ".addErr")
+	}
+	r := ai.ret
+	pred := ".none"
+	switch {
+	case r == "nil" || strings.HasPrefix(r, "[]byte(") || r == "c.text" || r == "toStr(c.text)":
+	case strings.HasPrefix(r, "!c.data.Config."):
+		if id := flagID(r[len("!c.data.Config."):]); id != "" {
+			pred = ".flag " + id + " true"
+		} else {
+			pred = ".unknown " + leanStr(r)
+		}
+	case strings.HasPrefix(r, "c.data.Config."):
+		if id := flagID(r[len("c.data.Config."):]); id != "" {
+			pred = ".flag " + id + " false"
+		} else {
+			pred = ".unknown " + leanStr(r)
+		}
+	case (r == "false" || r == "true") && len(ai.calls) == 0 && len(ai.assigns) == 0:
+		pred = ".const " + r
+	case r == "c.data.PrepareCustomDice(p)":
+		pred = ".customDice"
+	case r == "false":
+		// `return false` inside an action body (break / continue outside a loop): the value is ignored
+	default:
+		pred = ".unknown " + leanStr(r)
+	}
+	return effs, pred
 }
 
 func genUnicode(g *gramGen) (string, error) {
@@ -587,10 +786,10 @@ func init() {
 
 // Opcodes: the iota block of bytecode.go (identifier -> number), so that the engine model's emission trace (identifiers taken
 // from the action bodies) can be compared with the numeric trace the implementation logs.
-func genOpcodes(pf *pkgFiles) (string, error) {
+func opcodeNames(pf *pkgFiles) ([]string, error) {
 	f := pf.files["bytecode.go"]
 	if f == nil {
-		return "", fmt.Errorf("bytecode.go not found")
+		return nil, fmt.Errorf("bytecode.go not found")
 	}
 	var names []string
 	for _, d := range f.Decls {
@@ -603,18 +802,26 @@ func genOpcodes(pf *pkgFiles) (string, error) {
 			continue
 		}
 		if len(first.Values) != 1 || exprText(pf.fset, first.Values[0]) != "iota" {
-			return "", fmt.Errorf("CodeType const block does not start with iota")
+			return nil, fmt.Errorf("CodeType const block does not start with iota")
 		}
 		for _, sp := range gd.Specs {
 			vs := sp.(*ast.ValueSpec)
 			if len(vs.Names) != 1 || (vs != first && len(vs.Values) != 0) {
-				return "", fmt.Errorf("CodeType const block: unexpected spec")
+				return nil, fmt.Errorf("CodeType const block: unexpected spec")
 			}
 			names = append(names, vs.Names[0].Name)
 		}
 	}
 	if len(names) == 0 {
-		return "", fmt.Errorf("CodeType const block not found")
+		return nil, fmt.Errorf("CodeType const block not found")
+	}
+	return names, nil
+}
+
+func genOpcodes(pf *pkgFiles) (string, error) {
+	names, err := opcodeNames(pf)
+	if err != nil {
+		return "", err
 	}
 	var b strings.Builder
 	b.WriteString("-- GENERATED by /verif/harness/extract from the CodeType iota block of /repo/bytecode.go. Do not edit.\nnamespace DS.Gen.Opcodes\n\ndef opcodes : List (String × Nat) := [")
@@ -624,10 +831,50 @@ func genOpcodes(pf *pkgFiles) (string, error) {
 		}
 		fmt.Fprintf(&b, "(%s, %d)", leanStr(n), i)
 	}
-	b.WriteString("]\n\nend DS.Gen.Opcodes\n")
+	b.WriteString("]\n\n")
+	for i, n := range names {
+		fmt.Fprintf(&b, "def op_%s : Nat := %d\n", n, i)
+	}
+	b.WriteString("\nend DS.Gen.Opcodes\n")
 	return b.String(), nil
 }
 
 func init() {
 	generators["Opcodes"] = genOpcodes
+}
+
+// Fingerprints: normalised source text of the ParserData methods whose behaviour the engine model implements by name
+// (not regenerated): a change there is a broken tie that the checks must chase with a deeper search.
+func genFingerprints(pf *pkgFiles) (string, error) {
+	want := map[string]bool{"FlagsPush": true, "FlagsPop": true, "LoopBegin": true, "LoopEnd": true, "BreakPush": true, "ContinuePush": true,
+		"loopUnwindBlocks": true, "AddOp": true, "WriteCode": true, "checkStackOverflow": true, "CodePush": true, "CodePop": true}
+	var rows []string
+	f := pf.files["parser.go"]
+	if f == nil {
+		return "", fmt.Errorf("parser.go not found")
+	}
+	for _, d := range f.Decls {
+		fd, ok := d.(*ast.FuncDecl)
+		if !ok || fd.Recv == nil || fd.Body == nil || !want[fd.Name.Name] {
+			continue
+		}
+		txt := strings.Join(strings.Fields(exprTextNode(pf, fd.Body)), " ")
+		rows = append(rows, fmt.Sprintf("(%s, %s)", leanStr(fd.Name.Name), leanStr(txt)))
+		delete(want, fd.Name.Name)
+	}
+	for n := range want {
+		return "", fmt.Errorf("ParserData method %s not found", n)
+	}
+	return "-- GENERATED by /verif/harness/extract: bodies of the ParserData methods the engine model implements by name. Do not edit.\nnamespace DS.Gen.Fingerprints\n\ndef bodies : List (String × String) := [\n  " +
+		strings.Join(rows, ",\n  ") + "\n]\n\nend DS.Gen.Fingerprints\n", nil
+}
+
+func exprTextNode(pf *pkgFiles, n ast.Node) string {
+	var b strings.Builder
+	_ = printerFprint(&b, pf.fset, n)
+	return b.String()
+}
+
+func init() {
+	generators["Fingerprints"] = genFingerprints
 }
